@@ -16,7 +16,7 @@ func init() {
 		Prop:  "C11",
 		Title: "XPath queries over the node tree agree with a reference XML DOM",
 		Explanation: "The hand-written navigator is correct only under a representation invariant established by the readers; that cross-module contract is checked. " +
-			"R11a attributes are packed first and created in one place: every flow of the constant idr.AttributeNode into a node-creating call or into Node.Type, anywhere in the repository, must be an advance call of a stream reader inside the type case encoding/xml.StartElement; for each such site (1) walking backwards without crossing a token fetch reaches the advance call that attached the element itself, (2) on every path from the element's attachment to the attribute's no other child was attached to the element, the cursor was not moved away and the candidate check (which evaluates xpath over the element) has not yet run, (3) after the attribute the cursor is restored to the element (cur = cur.Parent) before the next attribute / candidate check / token fetch / return; " +
+			"R11a attributes are packed first and created in one place: every flow of the constant idr.AttributeNode into a node-creating call (any call that takes it, unless the resolved callee only ever compares that parameter - a type test, followed through forwarding calls) or into Node.Type, anywhere in the repository, must be an advance call of a stream reader inside the type case encoding/xml.StartElement; for each such site (1) walking backwards without crossing a token fetch reaches the advance call that attached the element itself, (2) on every path from the element's attachment to the attribute's no other child was attached to the element, the cursor was not moved away and the candidate check (which evaluates xpath over the element) has not yet run, (3) after the attribute the cursor is restored to the element (cur = cur.Parent) before the next attribute / candidate check / token fetch / return; " +
 			"R11b node-type exhaustiveness: the NodeType method of every xpath.NodeNavigator implementation in package idr compares the node's type with every declared constant of idr.NodeType - in the method itself or in a helper of package idr the node's Type is handed to (parameter binding, depth <= 3; the method is then interpreted with the cursor on a node of that type and must return rather than panic); every NodeType value passed to a function or stored into Node.Type in the repository is a declared constant, a forwarded parameter or the Type of an existing node, and Node.Type is stored only by the node API of package idr; " +
 			"R11c attribute text is excluded from the string-value: in Node.InnerText (its closures and the functions of package idr it statically calls, transitively) every use of a node obtained through a child/sibling link - recursion, text capture - is dominated by the not-AttributeNode edge of a test of that node's Type.",
 		NotDecided: "every navigation method's agreement with DOM semantics (MoveToNext/Previous/First/Child are only covered through the invariant they assume), document order, positional predicates, namespace prefix resolution, the xpath engine itself; trees built by caller-supplied readers.",
@@ -189,6 +189,12 @@ func runC11(c *core.Ctx) {
 						}
 						if !mayBeAttr(a) {
 							c.OK("R11b", key, core.InstrPos(in), "declared constant / forwarded parameter")
+							continue
+						}
+						// a callee that only ever compares the parameter (a type test such as "is the candidate an
+						// attribute?") cannot create a node of that type: the constant is a pattern, not a node's type
+						if callee := cc.StaticCallee(); callee != nil && g5ParamCompareOnly(callee, i, map[*ssa.Parameter]bool{}) {
+							c.OK("R11b", key, core.InstrPos(in), "the callee only compares the node type it is handed (no node is typed with it)")
 							continue
 						}
 						// AttributeNode flows into a call: judged by the token walk below
